@@ -503,7 +503,7 @@ theorem sorter_unique {α : Type} (le : α → α → Bool) (s₁ s₂ : Sorter 
     exact anti a b ((s₁.perm l₁).mem_iff.mp ha) ((s₁.perm l₁).mem_iff.mp hb)
 
 /-- the generic statement behind class `wholeElement`: a comparator program (ANY key list, interpreted by `cmpRec` on records
-with arbitrarily many numeric / text fields) whose keys cover every field of the element type cannot leave two distinct
+with arbitrarily many fields of kind unsigned / big number, text, signed number, boolean or byte string) whose keys cover every field of the element type cannot leave two distinct
 elements unseparated -/
 theorem cover_separates (keys : List SortKey) (fields : List String) (a b : Rec) (ha : a.map (·.1) = fields)
     (hb : b.map (·.1) = fields) (hn : fields.Nodup) (hcov : ∀ f ∈ fields, ∃ k ∈ keys, k.field = f)
@@ -801,6 +801,10 @@ example : sortSites.length ≥ 5 := by decide
 example : meetsSortContract missedLe [⟨0, "a"⟩, ⟨3, "b"⟩, ⟨0, "c"⟩] [⟨3, "b"⟩, ⟨0, "c"⟩, ⟨0, "a"⟩] = true ∧
     meetsSortContract missedLe [⟨0, "a"⟩, ⟨3, "b"⟩] [⟨0, "a"⟩, ⟨3, "b"⟩] = false := by decide
 example : (sortSites.filter (fun s => (sortClassify s).map (·.1) == some .wholeElement)).length ≥ 3 := by decide
+example : cmpRec [⟨"Online", true, "bool"⟩, ⟨"Key", false, "bytes"⟩, ⟨"Delta", false, "int"⟩] [("Online", .bool true), ("Key", .bytes [1, 2]), ("Delta", .int (-3))]
+    [("Online", .bool false), ("Key", .bytes [0]), ("Delta", .int 4)] = .lt ∧
+  cmpRec [⟨"Online", true, "bool"⟩, ⟨"Key", false, "bytes"⟩, ⟨"Delta", false, "int"⟩] [("Online", .bool true), ("Key", .bytes [1, 2]), ("Delta", .int (-3))]
+    [("Online", .bool true), ("Key", .bytes [1, 2]), ("Delta", .int 4)] = .lt := by decide
 example : cmpRec oracleSetKeys (memberRec 5 "0xa") (memberRec 5 "0xb") = .lt ∧ cmpRec oracleSetKeys (memberRec 5 "0xa") (memberRec 7 "0x0") = .gt := by decide
 example : sortMemberRecs [memberRec 5 "0xb", memberRec 7 "0xc", memberRec 5 "0xa"] = [memberRec 7 "0xc", memberRec 5 "0xa", memberRec 5 "0xb"] := by decide
 example : render (2 ^ 32 - 1) = 10 ^ 8 ∧ showFixed 8 (render 123456789012) = "28.74452366" := by decide
